@@ -10,6 +10,12 @@ model/DualAvg.vos model/DualAvg.vok model/DualAvg.required_vos: model/DualAvg.v 
 model/Tree.vo model/Tree.glob model/Tree.v.beautified model/Tree.required_vo: model/Tree.v 
 model/Tree.vio: model/Tree.v 
 model/Tree.vos model/Tree.vok model/Tree.required_vos: model/Tree.v 
+model/Kernel.vo model/Kernel.glob model/Kernel.v.beautified model/Kernel.required_vo: model/Kernel.v 
+model/Kernel.vio: model/Kernel.v 
+model/Kernel.vos model/Kernel.vok model/Kernel.required_vos: model/Kernel.v 
+model/KernelF64.vo model/KernelF64.glob model/KernelF64.v.beautified model/KernelF64.required_vo: model/KernelF64.v lib/Fp.vo model/Kernel.vo
+model/KernelF64.vio: model/KernelF64.v lib/Fp.vio model/Kernel.vio
+model/KernelF64.vos model/KernelF64.vok model/KernelF64.required_vos: model/KernelF64.v lib/Fp.vos model/Kernel.vos
 proofs/Schedule_facts.vo proofs/Schedule_facts.glob proofs/Schedule_facts.v.beautified proofs/Schedule_facts.required_vo: proofs/Schedule_facts.v lib/Fp.vo model/Schedule.vo
 proofs/Schedule_facts.vio: proofs/Schedule_facts.v lib/Fp.vio model/Schedule.vio
 proofs/Schedule_facts.vos proofs/Schedule_facts.vok proofs/Schedule_facts.required_vos: proofs/Schedule_facts.v lib/Fp.vos model/Schedule.vos
@@ -25,3 +31,6 @@ Properties/C01.vos Properties/C01.vok Properties/C01.required_vos: Properties/C0
 Properties/C03.vo Properties/C03.glob Properties/C03.v.beautified Properties/C03.required_vo: Properties/C03.v model/Tree.vo
 Properties/C03.vio: Properties/C03.v model/Tree.vio
 Properties/C03.vos Properties/C03.vok Properties/C03.required_vos: Properties/C03.v model/Tree.vos
+Properties/C17.vo Properties/C17.glob Properties/C17.v.beautified Properties/C17.required_vo: Properties/C17.v lib/Fp.vo model/Kernel.vo model/KernelF64.vo
+Properties/C17.vio: Properties/C17.v lib/Fp.vio model/Kernel.vio model/KernelF64.vio
+Properties/C17.vos Properties/C17.vok Properties/C17.required_vos: Properties/C17.v lib/Fp.vos model/Kernel.vos model/KernelF64.vos
